@@ -227,6 +227,24 @@ def run_op(op, sc, pps, r, d):
         pps.draw(rnd)
         rnd.render()
         fig.canvas.draw()
+        # a second frame with everything that is off by default switched on (signs, labels, icons, trajectories, ...)
+        from commonroad.visualization.draw_params import MPDrawParams
+        mp = MPDrawParams()
+        mp.lanelet_network.traffic_sign.draw_traffic_signs = True
+        mp.lanelet_network.traffic_sign.show_label = True
+        mp.lanelet_network.traffic_light.draw_traffic_lights = True
+        mp.lanelet_network.intersection.draw_intersections = True
+        mp.lanelet_network.lanelet.show_label = True
+        mp.dynamic_obstacle.show_label = True
+        mp.dynamic_obstacle.draw_icon = True
+        mp.dynamic_obstacle.draw_signals = True
+        mp.dynamic_obstacle.trajectory.draw_trajectory = True
+        mp.dynamic_obstacle.occupancy.draw_occupancies = True
+        mp.time_begin, mp.time_end = 1, 6
+        sc.draw(rnd, mp)
+        pps.draw(rnd, mp)
+        rnd.render()
+        fig.canvas.draw()
 
 
 def build(r):
